@@ -32,7 +32,10 @@ pub const STRS: &[&str] = &["", "a", "b", "ab", "xyz", "hello", "é", "λx", "q 
 
 impl Gen {
     pub fn new(seed: u64, cfg: RunCfg) -> Gen {
-        let model = Model::new(cfg.allow_redecl);
+        let mut model = Model::new(cfg.allow_redecl);
+        // generated programs are small: a statement that needs more steps than this is a runaway
+        // and is rejected at generation time
+        model.step_limit = 6_000;
         Gen {
             rng: Rng::new(seed),
             model,
@@ -106,6 +109,9 @@ impl Gen {
                 Fault::OutUnlimited => self.model.out_budget = None,
                 Fault::Cancel(_) => {}
             }
+        }
+        if crate::run::trace_enabled() {
+            eprintln!("GEN {}", crate::ir::render_top(&ex));
         }
         let top = self.model.top.clone();
         self.model.steps = 0;
